@@ -20,9 +20,9 @@ add("C03", "symbolic execution of CVSS2.__init__/scores() from source over finit
 add("C02", "symbolic execution of CVSS4.__init__ (m, macroVector, compute_base_score with real float/EPSILON/half-up at the leaves) in 270 macrovector forks; z3 decides impl==exact-rational spec per score value in every fork",
     "All assignments of all 32 v4.0 metrics covered symbolically; the case split over macrovectors is itself solver-checked for feasibility and exhaustiveness; in each fork z3 proves the reported float equals the exact interpolation result. Thorough tier: all 270 macrovectors; quick tier: complete table lemmas (lookup table, MAX_COMPOSED, MAX_SEVERITY) plus a seeded third of the macrovectors (the complete run takes about 25 minutes). The 270 lookup scores of the oracle are a pinned copy (stated limit).",
     COMMON_NOTE, "DESIGN.md section 6 C02")
-add("C04", "inductive lemmas on the real parse_vector code: one field slot (legal literals + near-miss alphabet, exact CPython string semantics) from an arbitrary metric map, code around the loop on head x abstract chunks, check_mandatory from an arbitrary map; z3 decides each step against the grammar step",
-    "One-step lemmas from an arbitrary loop state, each decided by the solver over all states and all slot values; composed by a written induction to any number of fields. Bounded by the finite field alphabet (listed in evidence).",
-    COMMON_NOTE, "DESIGN.md section 6 C04")
+add("C04", "two engines on the real parse_vector code, both inductive (one step from an arbitrary metric map): (1) forking symbolic execution over z3 sequence-theory terms (pysymex/strsym.py): the loop body on ONE ARBITRARY '/'-free string and the code before the loop on ONE ARBITRARY string, one z3 query per path (cvc5 on unknown), translator validation per path; (2) guarded-union engine with CPython string semantics on one field slot over legal literals + near-miss alphabet, heads one edit away from a legal prefix, check_mandatory from an arbitrary map; z3 decides each step against the grammar step",
+    "One-step lemmas from an arbitrary loop state, each decided by the solver over all states and - in the free-string lemmas - over every string of z3's sequence theory (no length bound, code points up to U+2FFFF); composed by a written induction to any number of fields. The finite alphabets of the second engine are listed in the evidence.",
+    COMMON_NOTE + " Additionally trusted for the free-string lemmas: the strsym executor (validated per path against the real parse_vector), z3's sequence theory (cvc5 as second solver in the thorough tier).", "DESIGN.md sections 2.6 and 5 (C04)")
 add("C05", "two related symbolic runs (ABSENT<->explicit ND/X on any subset) with all outputs compared by z3; commutation lemma for two field slots on the real loop body from an arbitrary state; accessors executed with the raw string opaque",
     "Not-Defined spelling: every output of the two runs is solver-proved equal over all assignments and all subsets; field order: solver-proved commutation of the real loop body for any two fields from any state, composed over transpositions by a written induction.",
     COMMON_NOTE, "DESIGN.md section 6 C05")
@@ -44,7 +44,7 @@ add("C10", "as_json() executed symbolically for the four option combinations; JS
 add("C11", "as_json() executed symbolically and compared field by field (z3) with the input string, scores(), severities() and an independent name table; sort/minimal relations between the four dictionaries",
     "Faithfulness of every field, the subset/ordering relations of sort and minimal, and the group-inclusion rule are solver verdicts over all assignments (v2 with real scoring because its group inclusion depends on scores).",
     COMMON_NOTE, "DESIGN.md section 6 C11")
-add("C12", "rh_vector() analysed as a structured string; real from_rh_vector executed on it and on <score text>/<valid vector> with the score text ranging over 101 canonical + 41 odd texts (float() run for real at the leaves); z3 decides outcome class against the oracle",
+add("C12", "rh_vector() analysed as a structured string; real from_rh_vector executed on it and on <score text>/<valid vector> with the score text ranging over 101 canonical + 41 odd texts + 24 texts defined relative to the object's base score (float() run for real at the leaves); z3 decides outcome class against the oracle",
     "Round trip and the acceptance/error taxonomy are solver verdicts over all vectors x all score texts of the finite alphabet.",
     COMMON_NOTE, "DESIGN.md section 6 C12")
 add("C15", "temporal_vector()/environmental_vector() as structured strings compared with the oracle per position (z3); re-assembled vector re-parsed and re-scored by the real constructor, scores compared by z3",
@@ -57,8 +57,8 @@ add("C18", "every accessor executed twice symbolically from an arbitrary constru
 add("C13", "whole parse_cvss_from_text executed symbolically with findall replaced by symbolic candidates (real constructors, set semantics through __eq__/__hash__); constructors by summary for the except clause; the candidate pattern (read from source) as an NFA run symbolically over every valid vector; z3 decides",
     "Totality/soundness/duplicate-freedom: solver verdicts over all choices of up to 3 candidates from a finite alphabet; completeness: solver verdict over all valid v2/v3 vectors that each fully matches the current pattern. re's scanning semantics are trusted (written argument).",
     COMMON_NOTE, "DESIGN.md section 6 C13")
-add("C16", "ask_interactively executed symbolically (print logged, input() answered from per-(metric, retry) solver variables over a finite answer alphabet), while-loops unrolled to a stated bound; result analysed as a structured string, re-parsed by the real class, official pattern; selectability by sat queries",
-    "All answer sequences over the finite alphabet up to the retry bound, for 4 versions x {mandatory, all}: solver verdicts that the returned vector is exactly the first legal answers (case-insensitive, empty = Not Defined), accepted by the class; each legal value has a selecting answer (sat witness).",
+add("C16", "ask_interactively executed symbolically (print logged, input() answered from per-(metric, retry) solver variables over a finite answer alphabet), while-loops unrolled to a stated bound; result analysed as a structured string, re-parsed by the real class, official pattern; selectability by sat queries; plus, per metric, one iteration of the real question loop executed by forking symbolic execution over z3 sequence-theory terms for ONE ARBITRARY (stripped) answer, decided per path against a regular-expression oracle",
+    "All answer sequences over the finite alphabet up to the retry bound, for 4 versions x {mandatory, all}: solver verdicts that the returned vector is exactly the first legal answers (case-insensitive, empty = Not Defined), accepted by the class; each legal value has a selecting answer (sat witness). The single-iteration lemma removes the answer alphabet for stripped answers of at most 8 ASCII characters.",
     COMMON_NOTE, "DESIGN.md section 6 C16")
 add("C17", "cvss_calculator.main() executed symbolically with an argparse recorder stub (flags = solver variables), print logged, interactive entry by summary; output of every (version selection, -v text, -j) case compared with the lines prescribed by the library API; z3 decides reachability of every print and exception",
     "All flag combinations x a finite list of -v texts x interactive outcomes: no exception escapes on any path (solver verdict); output equality per case with -a/-n universally quantified. The glue code is what the property is about; process-level behaviour only in replays.",
